@@ -8,7 +8,7 @@ d = f"/verif/seeded/{name}"
 os.makedirs(d, exist_ok=True)
 shutil.copy(f"{ROOT}/{pid}_out/patch.diff", d)
 shutil.copy(f"{ROOT}/{pid}_out/{demo}", d)
-shutil.copy(f"{ROOT}/{pid}_out/README.md", os.path.join(d, "AGENT_README.md"))
+shutil.copy(f"{ROOT}/{pid}_out/AGENT_README.md" if os.path.exists(f"{ROOT}/{pid}_out/AGENT_README.md") else f"{ROOT}/{pid}_out/README.md", os.path.join(d, "AGENT_README.md"))
 meta = {"property": pid, "change": what, "needs_to_manifest": needs,
         "demonstration": {"file": demo, "where": f"{crate}/tests/{demo}", "run": f"cargo test -p {crate} --test {demo[:-3]} --offline"},
         "confirmed": f"scratch worktree {ROOT}/{pid}: cargo test --workspace --offline -> 53 passed with the change; demo fails with the change, passes with the change stashed (confirm_mut.sh)",
